@@ -22,6 +22,13 @@ _REST = ("            for i, o in enumerate(obj):\n"
          "                else:\n"
          "                    new_term *= o\n")
 
+_EVD_KILL = ("                expr = expr.subs(killable, preferred)\n"
+             "                if len(deltas) > 1:\n"
+             "                    return evaluate_deltas(expr, target_idx)")
+_EVD_PREF = ("                expr = expr.subs(preferred, killable)\n"
+             "                if len(deltas) > 1:\n"
+             "                    return evaluate_deltas(expr, target_idx)")
+
 WITNESSES = [
     # ------------------------------------------------------------------ breaking edits
     dict(id="c20-target-guard", prop="C20", file=S, expect="R20a",
@@ -154,7 +161,42 @@ WITNESSES = [
     dict(id="c20-evd-helper-counts-twice", prop="C20", file=F, expect="R20c",
          edits=[("            target_idx = [s for s, n in indices.items() if not n]\n", "            target_idx = _indices_on_single_object(expr)\n"),
                 ("    return [s for s, n in counter.items() if n == 1]", "    return [s for s, n in counter.items() if n <= 2]")]),
+    # seeded change C20-12 and its relatives: a restart of evaluate_deltas on the remaining deltas that forgets the targets
+    dict(id="c20-seed-evd-preferred-restart-loses-targets", prop="C20", file=F, expect="R20c",
+         old=_EVD_PREF, new=_EVD_PREF.replace("evaluate_deltas(expr, target_idx)", "evaluate_deltas(expr)") + "\n                continue"),
+    dict(id="c20-evd-killable-restart-loses-targets", prop="C20", file=F, expect="R20c",
+         old=_EVD_KILL, new=_EVD_KILL.replace("evaluate_deltas(expr, target_idx)", "evaluate_deltas(expr)")),
+    dict(id="c20-evd-sum-loses-targets", prop="C20", file=F, expect="R20c",
+         old="evaluate_deltas(arg, target_idx)", new="evaluate_deltas(arg)"),
+    dict(id="c20-evd-preferred-no-restart", prop="C20", file=F, expect="R20c",
+         old=_EVD_PREF, new="                expr = expr.subs(preferred, killable)"),
+    dict(id="c20-evd-information-guard-dropped", prop="C20", file=F, expect="R20c",
+         old="            elif preferred not in target_idx \\\n                    and d.indices_contain_equal_information:",
+         new="            elif preferred not in target_idx:"),
+    dict(id="c20-evd-restart-targets-of-first-delta", prop="C20", file=F, expect="R20c",
+         old=_EVD_PREF, new=_EVD_PREF.replace("evaluate_deltas(expr, target_idx)", "evaluate_deltas(expr, [killable])")),
     # ------------------------------------------------------------------ behaviour-preserving edits
+    # the restarts of evaluate_deltas spelled differently (targets still handed on)
+    dict(id="c20-ok-evd-restart-keyword", prop="C20", file=F, expect=None,
+         old=_EVD_PREF, new=_EVD_PREF.replace("evaluate_deltas(expr, target_idx)", "evaluate_deltas(expr, target_idx=target_idx)")),
+    dict(id="c20-ok-evd-restart-tidied", prop="C20", file=F, expect=None,
+         old=_EVD_PREF, new="                expr = expr.subs(preferred, killable)\n                # collect the remaining deltas again\n"
+                            "                if len(deltas) > 1:\n                    return evaluate_deltas(expr, target_idx)\n                continue"),
+    dict(id="c20-ok-evd-restart-early-return", prop="C20", file=F, expect=None,
+         old=_EVD_PREF, new="                expr = expr.subs(preferred, killable)\n                if len(deltas) == 1:\n                    return expr\n"
+                            "                return evaluate_deltas(expr, tuple(target_idx))"),
+    dict(id="c20-ok-evd-restart-conditional", prop="C20", file=F, expect=None,
+         old=_EVD_PREF, new="                remaining = expr.subs(preferred, killable)\n"
+                            "                return evaluate_deltas(remaining, target_idx) if len(deltas) > 1 else remaining"),
+    dict(id="c20-ok-evd-restart-always", prop="C20", file=F, expect=None,
+         edits=[(_EVD_KILL, "                expr = expr.subs(killable, preferred)\n                return evaluate_deltas(expr, target_idx)"),
+                (_EVD_PREF, "                expr = expr.subs(preferred, killable)\n                return evaluate_deltas(expr, target_idx)")]),
+    dict(id="c20-ok-evd-shared-restart", prop="C20", file=F, expect=None,
+         edits=[(_EVD_KILL + "\n                continue\n", "                new = expr.subs(killable, preferred)\n"),
+                ("            elif preferred not in target_idx \\\n                    and d.indices_contain_equal_information:\n" + _EVD_PREF + "\n",
+                 "            elif preferred not in target_idx \\\n                    and d.indices_contain_equal_information:\n"
+                 "                new = expr.subs(preferred, killable)\n            else:\n                continue\n"
+                 "            if len(deltas) > 1:\n                return evaluate_deltas(new, target_idx)\n            expr = new\n")]),
     # the repaired guards spelled differently
     dict(id="c20-ok-f30-twin", prop="C20", file=F, expect=None,
          old="                if preferred not in target_idx and not any(\n                        obj.has(preferred) or obj.has(killable)\n                        for obj in expr.args if obj is not d):\n",
